@@ -28,20 +28,60 @@ def ensure_extractor():
     return exe
 
 
-def extract(bdir, probes=False, name="fb_verif"):
+def extract(bdir, probes=False, name="fb_verif", probe_prop=None):
     exe = ensure_extractor()
     out = os.path.join(bdir, name + ".rs")
     mp = os.path.join(bdir, name + ".map.json")
     cmd = [exe, "--repo", REPO, "--verif", VERIF, "--out", out, "--map", mp]
     if probes:
         cmd.append("--probes")
+        if probe_prop:
+            cmd += ["--probe-prop", probe_prop]
     r = sh(cmd)
     if r.returncode != 0:
         return None, None, r.stderr.strip()
     return out, json.load(open(mp)), None
 
 
+def verus_cmd(path, seed=0, rlimit=None, multiple_errors=12, threads=8):
+    cmd = ["verus", os.path.basename(path), "--triggers-mode", "silent", "--output-json", "--time",
+           "--error-format=json", "--multiple-errors", str(multiple_errors), "--num-threads", str(threads)]
+    if seed:
+        cmd += ["--smt-option", "smt.random_seed=%d" % (seed % 100000), "--smt-option", "sat.random_seed=%d" % (seed % 100000)]
+    if rlimit:
+        cmd += ["--rlimit", str(rlimit)]
+    return cmd
+
+
+def start_verus(path, **kw):
+    cmd = verus_cmd(path, **kw)
+    return cmd, time.time(), subprocess.Popen(cmd, cwd=os.path.dirname(path), stdout=subprocess.PIPE, stderr=subprocess.PIPE, text=True)
+
+
+def finish_verus(started):
+    cmd, t0, proc = started
+    out, err = proc.communicate()
+    wall = time.time() - t0
+    try:
+        js = json.loads(out)
+    except Exception:
+        js = None
+    diags = []
+    for line in err.splitlines():
+        line = line.strip()
+        if line.startswith("{"):
+            try:
+                diags.append(json.loads(line))
+            except Exception:
+                pass
+    return {"cmd": " ".join(cmd), "rc": proc.returncode, "json": js, "diags": diags, "wall": wall, "stderr": err}
+
+
 def run_verus(path, seed=0, rlimit=None, multiple_errors=12, threads=8):
+    return finish_verus(start_verus(path, seed=seed, rlimit=rlimit, multiple_errors=multiple_errors, threads=threads))
+
+
+def _old_run_verus(path, seed=0, rlimit=None, multiple_errors=12, threads=8):
     cmd = ["verus", os.path.basename(path), "--triggers-mode", "silent", "--output-json", "--time",
            "--error-format=json", "--multiple-errors", str(multiple_errors), "--num-threads", str(threads)]
     if seed:
